@@ -1289,3 +1289,37 @@ if _LINES_ITER_PROOF:
                raises_only=())
     M.contract(_P_CC + '.as_str', params=dict(self=CONCAT_CONTENTS), inline=True,
                ensures={'as_str == txt': lambda self, result: result == txt_of(self)}, raises_only=())
+
+
+# --- bounded stand-in for the line iterator of a concatenation (labelled `bounded`, never counted as proved): the
+# REAL `_ConcatStringSourceContents` (as_lines, as_str, `_lines_iter` a second time, write_to, and as_file for the
+# smaller cases) over REAL parts of four kinds, on every list of 2..4 (thorough: ..5) parts whose texts come from
+# a small set that has every combination of empty / unterminated / terminated first and last lines, compared with
+# split_nl of the concatenated texts.  Until the deductive proof above goes through this is what stands for
+# "as_lines / as_str of a concatenation see the text".
+@M.bounded('lines of a concatenation of sources')
+def _b_concat_lines(ctx):
+    import itertools
+    T, K = replays_c14.CONCAT_PART_TEXTS, replays_c14.CONCAT_PART_KINDS
+    max_parts = 5 if ctx.tier == 'thorough' else 4
+    bench = replays_c14.ConcatBench()
+    cases, failures = 0, []
+    for k in range(2, max_parts + 1):
+        # kinds: all parts of one kind (x4), and the kinds in rotation starting at each kind (x4; quick: x1)
+        kind_sets = [(kd,) * k for kd in K] \
+            + [tuple(K[(i + o) % len(K)] for i in range(k)) for o in range(len(K) if ctx.tier == 'thorough' else 1)]
+        for texts in itertools.product(T, repeat=k):
+            for kinds in kind_sets:
+                cases += 1
+                f = bench.failure(list(texts), kinds, with_file=(k <= 3 and kinds[0] == kinds[1] == 'str'))
+                if f is not None:
+                    failures.append({'input': {'texts': list(texts), 'kinds': list(kinds)}, 'expected': f[1],
+                                     'actual': f[2], 'what': f[0],
+                                     'replay': 'from contracts import replays_c14\n'
+                                               'sys.exit(replays_c14.concat_case(%r, %r))\n' % (list(texts), list(kinds))})
+    import shutil
+    shutil.rmtree(str(bench.space.d), ignore_errors=True)
+    ctx.bounded_result('concat._ConcatStringSourceContents.as_lines / as_str / _lines_iter / write_to / as_file',
+                       'every list of 2..%d parts with texts from %r, parts of the kinds %r (uniform and in rotation)'
+                       % (max_parts, list(T), list(K)), cases, True, failures,
+                       note='compared with split_nl of the concatenated texts; line-wise reading is done twice')
